@@ -395,6 +395,17 @@ impl<W: WorldOps> Engine<W> {
                     self.viol(Some(wi), &["C08"], "overflow-no-panic", format!("{what}: destroying {} needed a generation counter beyond u32::MAX but did not panic", raw_fmt(v.entity)));
                     return;
                 }
+                // the flagged entity must be gone (checked before the drop accounting so that a
+                // loop that does not destroy is reported as such, not as a leak)
+                let still = {
+                    let a = self.archs[ai];
+                    let s = self.worlds[wi].as_mut().unwrap();
+                    guard(|| a.lookup(&mut s.w, LK_A_CONTAINS, Key::Typed(v.entity, false)))
+                };
+                if let Ok(Some(_)) = still {
+                    self.viol(Some(wi), &["C07", "C01"], "iter-destroy", format!("{what}: {} was flagged {:?} but is still alive after the loop", raw_fmt(v.entity), d.unwrap()));
+                    return;
+                }
                 destroyed_rows.push(self.slot(wi).m.ents[uid].row.clone());
                 self.slot(wi).m.remove(uid, step);
                 self.rep.count("iter_destroy.destroyed");
